@@ -65,6 +65,8 @@ def _as_index(np, idx, how):
 
 
 def run_case(case, ctx):
+	if case['kind'] == 'many':
+		return run_many(case, ctx)
 	if case['kind'] == 'omp_env':
 		# the same kind of case in a fresh interpreter whose OpenMP runtime was configured through the environment
 		# (read once at load time): thread limits below the requested count, dynamic team sizes, other schedules
@@ -386,6 +388,77 @@ def bulk_case(draw, tier):
 	}
 
 
+def run_many(case, ctx):
+	"""More references than any plausible internal chunk (1000, 1024, 2048): all-pairs and query-by-reference results against a
+	vectorised exact oracle (tiny signatures over a universe of < 64 values, so the float64 quotient rounds to binary32 exactly once)."""
+	import numpy as np
+	from gambit.kmers import KmerSpec
+	from gambit.sigs.base import SignatureArray, SignatureList, dump_signatures, load_signatures
+	from gambit.metric import jaccarddist_matrix, jaccarddist_pairwise
+	from gambit._cython.threads import omp_set_num_threads
+	lim = 2 if ctx.tier == 'quick' else 30
+	if ctx.cache.get('c05_many', 0) >= lim and not case.get('force'):
+		return {'nontrivial': False, 'classes': ['many_refs_skipped(budget)']}
+	ctx.cache['c05_many'] = ctx.cache.get('c05_many', 0) + 1
+	n, U = case['n'], case['universe']
+	rng = np.random.default_rng(case['seed'])
+	M = rng.random((n, U)) < rng.uniform(0.1, 0.6, size=(n, 1))
+	M[rng.integers(0, n, size=n // 50)] = M[0]            # duplicates
+	sigs = [np.flatnonzero(row).astype('u2') for row in M]
+	kspec = KmerSpec(8, 'AT')
+	Mi = M.astype(np.int64)
+	inter = Mi @ Mi.T
+	sizes = Mi.sum(axis=1)
+	union = sizes[:, None] + sizes[None, :] - inter
+	with np.errstate(invalid='ignore', divide='ignore'):
+		exp = np.where(union > 0, (union - inter) / np.maximum(union, 1), 0.0).astype(np.float32)
+	cont = case['container']
+	h5 = None
+	if cont == 'hdf5':
+		path = ctx.fresh_path('.gs')
+		dump_signatures(path, SignatureArray(sigs, kspec, dtype=np.dtype('u2')))
+		rc = h5 = load_signatures(path)
+	elif cont == 'array':
+		rc = SignatureArray(sigs, kspec, dtype=np.dtype('u2'))
+	else:
+		rc = SignatureList(sigs, kspec, dtype=np.dtype('u2'))
+	try:
+		omp_set_num_threads(case['threads'])
+		func = case['func']
+		try:
+			if func == 'pairwise':
+				res = jaccarddist_pairwise(rc)
+			elif func == 'pairwise_flat':
+				from scipy.spatial.distance import squareform
+				res = squareform(jaccarddist_pairwise(rc, flat=True))
+			else:
+				qi = list(range(0, n, max(1, n // 7)))
+				res_q = jaccarddist_matrix([sigs[i] for i in qi], rc, chunksize=case['chunksize'])
+				res = None
+		except Exception as e:
+			raise Violation('exception', f'{func} on {n} references raised {type(e).__name__}: {e}', case)
+		if res is not None:
+			bad = np.argwhere(np.asarray(res, dtype=np.float32).view(np.uint32) != exp.view(np.uint32))
+			if func == 'pairwise_flat':
+				bad = np.array([b for b in bad if b[0] != b[1]])
+			if len(bad):
+				a, b = map(int, bad[0])
+				raise Violation('cell_many', f'jaccarddist_pairwise ({func}) on {n} signatures in a {cont}: cell ({a},{b}) = {float(res[a, b])!r}, exact distance '
+				                f'{float(exp[a, b])!r}; {len(bad)} cells differ', case)
+		else:
+			sub = exp[qi, :]
+			bad = np.argwhere(np.asarray(res_q, dtype=np.float32).view(np.uint32) != sub.view(np.uint32))
+			if len(bad):
+				a, b = map(int, bad[0])
+				raise Violation('cell_many', f'jaccarddist_matrix (chunksize {case["chunksize"]}) against {n} references in a {cont}: cell ({a},{b}) = '
+				                f'{float(res_q[a, b])!r}, exact distance {float(sub[a, b])!r}; {len(bad)} cells differ', case)
+	finally:
+		omp_set_num_threads(4)
+		if h5 is not None:
+			h5.close()
+	return {'nontrivial': True, 'classes': ['many_refs', f'n={n}', f'container={cont}', f'func={func}']}
+
+
 OMP_ENVS = [{'OMP_THREAD_LIMIT': '2'}, {'OMP_THREAD_LIMIT': '3'}, {'OMP_THREAD_LIMIT': '1'}, {'OMP_DYNAMIC': 'true'},
             {'OMP_DYNAMIC': 'true', 'OMP_THREAD_LIMIT': '5'}, {'OMP_SCHEDULE': 'static'}, {'OMP_SCHEDULE': 'guided,2'},
             {'OMP_NUM_THREADS': '64'}, {'OMP_NUM_THREADS': '1'}, {'OMP_MAX_ACTIVE_LEVELS': '1', 'OMP_THREAD_LIMIT': '2'},
@@ -400,6 +473,12 @@ def omp_env_case(draw, tier):
 	return {'kind': 'omp_env', 'env': draw(st.sampled_from(OMP_ENVS)), 'inner': inner}
 
 
+many_case = st.builds(lambda n, sd, c, f, t, cs: {'kind': 'many', 'n': n, 'universe': 40, 'seed': sd, 'container': c, 'func': f, 'threads': t, 'chunksize': cs},
+                      st.sampled_from([1001, 1030, 1000, 2049, 1025, 999, 2001]), st.integers(0, 2 ** 20), st.sampled_from(['hdf5', 'array', 'hdf5', 'list']),
+                      st.sampled_from(['pairwise', 'matrix', 'pairwise_flat', 'pairwise']), st.sampled_from([1, 4, 16]), st.sampled_from([None, 1000, 512, 1001]))
+
+
 def strategy(tier):
 	rare = st.sampled_from([False] * 12 + [True] + [False] * 12)
-	return rare.flatmap(lambda f: omp_env_case(tier) if f else bulk_case(tier))
+	rare_m = st.sampled_from([False] * 100 + [True] + [False] * 100)
+	return rare.flatmap(lambda f: omp_env_case(tier) if f else rare_m.flatmap(lambda g: many_case if g else bulk_case(tier)))
